@@ -19,9 +19,18 @@
               the files, in order, sit at the first 8-aligned offset at or after the end of the
               previous one (the first one at DataOffset), each non-empty, each *inside buf*
               (offset + size ≤ Length — this is what fixes/C04-file-clipped-to-volume.diff repairs);
+              *nothing is dropped*: behind the last file the walk ends (`WalkEnd`) at an erased file
+              header whose position to the end of the volume is the reported FreeSpace, or with fewer
+              than 24 bytes left (as repaired by fixes/C03-header-only-last-file.diff, commit cce350a:
+              the walk runs while `offset <= Length-24`; the strict rule before it is refuted in
+              FaithfulCover.lean);
     file      every header field = the bytes at its layout offset; buf = the bytes at its offset
               and size; the sections, in order, sit at 4-aligned running offsets starting at
-              DataOffset, non-empty, inside the file, and cover it to its end;
+              DataOffset, non-empty, inside the file, and cover it to its end; the NVAR store is
+              reported exactly for a RAW file with the NVAR GUID and is what `NewNVarStore` (the
+              hook) answers on buf[DataOffset:] (what that answer looks like: FaithfulNvar.lean);
+    ME        the partition table Go derives from the region's bytes is those bytes, field by field
+              (FaithfulMe.lean);
     section   header fields = bytes; buf = the bytes at its offset and size, inside the parent;
               GUID-defined: sub-header fields = bytes, and when children exist they partition
               (4-aligned running offsets, up to the end) the payload the codec returned for
@@ -32,6 +41,7 @@
   All offsets are mathematical (`up4`, `up8` round up; no wrap-around).  Core Lean only.
 -/
 import FianoModel.Uefi.Parse
+import FianoModel.Uefi.FaithfulMe
 
 namespace Fiano.Uefi
 open Fiano
@@ -106,6 +116,27 @@ def FvHeaderOk (i : FvInfo) (data : Bytes) : Prop :=
      i.dataOffset = up8 (i.extHeaderOffset + i.extHeaderSize)
    else i.fvName = guidZero ∧ i.extHeaderSize = 0 ∧ i.dataOffset = up8 i.headerLen)
 
+/-- an erased file header — what `NewFile` takes for the start of the free space: `Size` is FFFFFF and
+    the extended size is all ones, or fewer than 8 bytes follow the 24 erased header bytes -/
+def FreeHeader (ctx : Bytes) : Prop :=
+  24 ≤ ctx.length ∧ rd ctx 20 3 = 0xFFFFFF ∧
+  (if ctx.length < 32 then (ctx.take 24).all (· == 0xFF) = true else rd ctx 24 8 = 0xFFFFFFFFFFFFFFFF)
+
+/-- how the file walk of a volume with buffer `fvbuf` ends, `off` being the end of the last file (or
+    `DataOffset`): **free space** — an erased header sits at the next 8-aligned offset and `FreeSpace` is
+    everything from there to the end of the volume; or **no room** — fewer than 24 bytes are left and
+    `FreeSpace` is 0. -/
+def WalkEnd (fvbuf : Bytes) (off free : Nat) : Prop :=
+  (up8 off < fvbuf.length ∧ FreeHeader (fvbuf.drop (up8 off)) ∧ free = fvbuf.length - up8 off) ∨
+  (free = 0 ∧ fvbuf.length < off + 24)
+
+/-- the NVAR store of a file: reported exactly for a RAW file carrying the NVAR GUID, and then it is
+    what `NewNVarStore` (the hook `h.nvarParse`) answers on the file's bytes behind its header -/
+def NvFileOk (h : Hooks) (i : FileInfo) (buf : Bytes) : Prop :=
+  if i.type = 1 ∧ i.guid = guidNVAR then
+    i.dataOffset < buf.length ∧ i.nvar = h.nvarParse (buf.drop i.dataOffset)
+  else i.nvar = none
+
 mutual
 
 /-- a section parsed from `ctx` = parent[offset:] -/
@@ -143,7 +174,7 @@ def FvF (h : Hooks) : Fv → Bytes → Prop
 
 /-- the files of a volume with buffer `fvbuf`, the previous one ending at `off` -/
 def FilesAt (h : Hooks) : List File → Bytes → Nat → Nat → Prop
-  | [], fvbuf, off, free => free = 0 ∨ free = fvbuf.length - up8 off
+  | [], fvbuf, off, free => WalkEnd fvbuf off free
   | f :: fs, fvbuf, off, free =>
     up8 off < fvbuf.length ∧ FileF h f (fvbuf.drop (up8 off)) ∧ 0 < f.info.extSize ∧
     FilesAt h fs fvbuf (up8 off + f.info.extSize) free
@@ -151,7 +182,7 @@ def FilesAt (h : Hooks) : List File → Bytes → Nat → Nat → Prop
 /-- a file parsed from `ctx` = volume[offset:] -/
 def FileF (h : Hooks) : File → Bytes → Prop
   | .mk i buf secs, ctx =>
-    FileHeaderOk i ctx ∧ i.extSize ≤ ctx.length ∧ buf = ctx.take i.extSize ∧
+    FileHeaderOk i ctx ∧ i.extSize ≤ ctx.length ∧ buf = ctx.take i.extSize ∧ NvFileOk h i buf ∧
     (if supportedFile i.type = true then SecsAt h secs buf i.dataOffset 0 else secs = [])
 
 /-- the sections of a file with buffer `fbuf` from `off` on, covering it to the end -/
@@ -193,14 +224,18 @@ def DescF (d : Descriptor) (dbuf : Bytes) : Prop :=
       some (rd dbuf (d.masterStart + 4 * k) 2, rd dbuf (d.masterStart + 4 * k + 2) 1,
             rd dbuf (d.masterStart + 4 * k + 3) 1))
 
+/-- what lies inside a region: a BIOS region's elements; an ME region's partition table -/
+def RegionInner (h : Hooks) : Region → Prop
+  | .bios b => BiosF h b b.buf
+  | .me b _ => Me.MeBufF b
+  | .raw _ _ _ => True
+
 /-- one region of the flash starting at `off`; `tbl` is the descriptor's region table -/
 def RegionF (h : Hooks) (bs : Bytes) (tbl : List FlashRegion) (r : Region) (off : Nat) : Prop :=
   r.buf ≠ [] ∧ off + r.buf.length ≤ bs.length ∧ r.buf = slice bs off r.buf.length ∧
   (∃ fr, r.fr = some fr ∧ fr.baseOffset = off ∧
     (r.rtype ≠ -1 → fr.endOffset = off + r.buf.length ∧ tbl[r.rtype.toNat]? = some fr)) ∧
-  (match r with
-   | .bios b => BiosF h b b.buf
-   | _ => True)
+  RegionInner h r
 
 /-- the regions tile `[off, |bs|)` in tree order -/
 def RegionsAt (h : Hooks) (bs : Bytes) (tbl : List FlashRegion) : List Region → Nat → Prop
